@@ -421,6 +421,338 @@ Section Xform.
     end.
 End Xform.
 
+(* ---- LoadIndex / GenerateIndex over every source kind (theories/IndexGen.v) ------------------------- *)
+From GoCar Require IndexGen.
+Section Gen.
+  Variable hdrdec : bytes -> option (list bytes * N).
+
+  Fixpoint gen_loop_allocs (fuel : nat) (tc : bool) (k : IndexGen.srckind) (o : IndexGen.gopts) (all : bytes)
+           (doff dsize : N) (st : IndexGen.rstate) : list N :=
+    match fuel with
+    | O => []
+    | S f =>
+      if tc && IndexGen.payload_end doff dsize st then [] else
+      match read_uv (IndexGen.view all st) with
+      | VOk slen _ n =>
+        let st1 := IndexGen.advance n st in
+        if slen =? 0 then [] else
+        cfr_allocs (IndexGen.view all st1) ++
+        match cid_from_reader (IndexGen.view all st1) with
+        | CfrOk cn c p _ =>
+          let st2 := IndexGen.advance cn st1 in
+          if IndexGen.indexed o p && (IndexGen.g_max_cid o <? cn) then []
+          else
+            match IndexGen.seek_cur k all (Z.of_N slen - Z.of_N cn)%Z st2 with
+            | Err _ => []
+            | Ok st3 =>
+              if negb tc && IndexGen.payload_end doff dsize st3 then []
+              else gen_loop_allocs f tc k o all doff dsize st3
+            end
+        | _ => []
+        end
+      | _ => []
+      end
+    end.
+
+  (* mirrors IndexGen.load_index_gen *)
+  Definition gen_allocs (fx : IndexGen.fixes) (k : IndexGen.srckind) (o : IndexGen.gopts) (all : bytes) : list N :=
+    let counted := IndexGen.fx_counted fx in
+    let tc := IndexGen.fx_topcheck fx in
+    ld_read_allocs false (IndexGen.g_maxh o) all ++
+    match read_header hdrdec (IndexGen.g_maxh o) all with
+    | Err _ => []
+    | Ok (_, v, _, used) =>
+      let st0 := IndexGen.advance_raw k counted used (IndexGen.mkrs 0 0) in
+      if v =? 1 then gen_loop_allocs (S (length all)) tc k o all 0 0 st0
+      else if v =? 2 then
+        match read_v2hdr (IndexGen.view all st0) with
+        | Err _ => []
+        | Ok (h, _) =>
+          let st1 := IndexGen.advance_raw k counted 40 st0 in
+          match IndexGen.seek_start k all (h_doff h) st1 with
+          | Err _ => []
+          | Ok st2 =>
+            ld_read_allocs false (IndexGen.g_maxh o) (IndexGen.view all st2) ++
+            match read_header hdrdec (IndexGen.g_maxh o) (IndexGen.view all st2) with
+            | Err _ => []
+            | Ok (_, v1, _, used1) =>
+              if negb (v1 =? 1) then []
+              else gen_loop_allocs (S (length all)) tc k o all (h_doff h) (h_dsize h) (IndexGen.advance used1 st2)
+            end
+          end
+        end
+      else []
+    end.
+End Gen.
+
+(* ---- NewReader + Inspect (theories/Inspect.v) ------------------------------------------------------------ *)
+From GoCar Require Inspect.
+Section Insp.
+  Variable hok : bytes -> bytes -> option bool.
+  Variable hdrdec : bytes -> option (list bytes * N).
+
+  (* one CidFromReader per section; block data is hashed through a fixed buffer or seeked over *)
+  Fixpoint insp_loop_allocs (fuel : nat) (validate : bool) (o : ropts) (s : bytes) : list N :=
+    match fuel with
+    | O => []
+    | S f =>
+      match read_uv s with
+      | VOk l rest _ =>
+        if (l =? 0) && o_zeof o then []
+        else if o_maxs o <? l then []
+        else
+          cfr_allocs rest ++
+          match cid_from_reader rest with
+          | CfrOk cn c p after =>
+            if l <? cn then []
+            else
+              let bl := l - cn in
+              if validate then
+                if blen after <? bl then []
+                else match verify hok c p (take bl after) with
+                     | Err _ => []
+                     | Ok _ => insp_loop_allocs f validate o (drop bl after)
+                     end
+              else insp_loop_allocs f validate o (drop bl after)
+          | _ => []
+          end
+      | _ => []
+      end
+    end.
+
+  (* mirrors Inspect.new_reader + Inspect.inspect *)
+  Definition inspect_allocs (o : ropts) (file : bytes) (validate : bool) : list N :=
+    ld_read_allocs false (o_maxh o) file ++
+    match Inspect.new_reader hdrdec o file with
+    | Err _ => []
+    | Ok rd =>
+      let dr := Inspect.data_window rd file in
+      ld_read_allocs false (o_maxh o) dr ++
+      match read_header hdrdec (o_maxh o) dr with
+      | Err _ => []
+      | Ok (roots, hv, rest, _) =>
+        if (Inspect.r_version rd =? 2) && negb (hv =? 1) then []
+        else insp_loop_allocs (S (length rest)) validate o rest
+      end
+    end.
+End Insp.
+
+(* ---- read-only stores (theories/ReadOnly.v) -------------------------------------------------------------- *)
+From GoCar Require ReadOnly.
+Section RO.
+  Variable hdrdec : bytes -> option (list bytes * N).
+
+  Fixpoint li_scan_allocs (fuel : nat) (o : ReadOnly.qopts) (base : N) (src : bytes) (doff dsize pos : N) : list N :=
+    match fuel with
+    | O => []
+    | S f =>
+      match read_uv (drop pos src) with
+      | VOk len r1 n1 =>
+        if len =? 0 then [] else
+        cfr_allocs r1 ++
+        match cid_from_reader r1 with
+        | CfrOk n c p _ =>
+          let keep := ReadOnly.q_storeid o || negb (is_identity p) in
+          if keep && (ReadOnly.q_maxcid o <? n) then [] else
+          let npos := pos + n1 + len in
+          if two63 <=? base + npos then []
+          else if negb (dsize =? 0) && (dsize <=? npos - doff) then []
+          else li_scan_allocs f o base src doff dsize npos
+        | _ => []
+        end
+      | _ => []
+      end
+    end.
+
+  (* mirrors ReadOnly.load_records *)
+  Definition load_records_allocs (o : ReadOnly.qopts) (base : N) (src : bytes) : list N :=
+    ld_read_allocs false (ReadOnly.q_maxh o) src ++
+    match read_header hdrdec (ReadOnly.q_maxh o) src with
+    | Err _ => []
+    | Ok (_, ver, rest, used) =>
+      if ver =? 1 then li_scan_allocs (S (S (length src))) o base src 0 0 used
+      else if ver =? 2 then
+        match read_v2hdr rest with
+        | Err _ => []
+        | Ok (h, _) =>
+          if two63 <=? base + h_doff h then []
+          else
+            ld_read_allocs false (ReadOnly.q_maxh o) (drop (h_doff h) src) ++
+            match read_header hdrdec (ReadOnly.q_maxh o) (drop (h_doff h) src) with
+            | Err _ => []
+            | Ok (_, v1, _, used1) =>
+              if negb (v1 =? 1) then []
+              else li_scan_allocs (S (S (length src))) o base src (h_doff h) (h_dsize h) (h_doff h + used1)
+            end
+        end
+      else []
+    end.
+  (* GenerateIndex checks the codec first; LoadIndex into an insertion index does not *)
+  Definition gen_allocs_ro (flat : bool) (o : ReadOnly.qopts) (base : N) (src : bytes) : list N :=
+    if flat then match idx_new (ReadOnly.q_codec o) with
+                 | None => []
+                 | Some _ => load_records_allocs o base src
+                 end
+    else load_records_allocs o base src.
+  Definition embedded_or_allocs (flat : bool) (o : ReadOnly.qopts) (r : ReadOnly.v2reader) : list N :=
+    match ReadOnly.index_window r with
+    | Some iw => idx_allocs iw
+    | None => gen_allocs_ro flat o (ReadOnly.window_base r) (ReadOnly.data_window r)
+    end.
+
+  (* blockstore.NewReadOnly(backing, nil, opts...): readVersion, then generate / NewReader + embedded or generate *)
+  Definition ro_open_allocs (o : ReadOnly.qopts) (file : bytes) : list N :=
+    ld_read_allocs false (ReadOnly.q_maxh o) file ++
+    match read_header hdrdec (ReadOnly.q_maxh o) file with
+    | Err _ => []
+    | Ok (_, ver, _, _) =>
+      if ver =? 1 then gen_allocs_ro true o 0 file
+      else if ver =? 2 then
+        ld_read_allocs false (ReadOnly.q_maxh o) file ++
+        match ReadOnly.new_reader hdrdec (ReadOnly.q_maxh o) file with
+        | Err _ => []
+        | Ok r => embedded_or_allocs true o r
+        end
+      else []
+    end.
+  (* storage.OpenReadable *)
+  Definition sto_open_allocs (o : ReadOnly.qopts) (file : bytes) : list N :=
+    ld_read_allocs false (ReadOnly.q_maxh o) file ++
+    match read_header hdrdec (ReadOnly.q_maxh o) file with
+    | Err _ => []
+    | Ok (_, ver, _, _) =>
+      if ver =? 1 then gen_allocs_ro false o 0 file
+      else if ver =? 2 then
+        ld_read_allocs false (ReadOnly.q_maxh o) file ++
+        match ReadOnly.new_reader hdrdec (ReadOnly.q_maxh o) file with
+        | Err _ => []
+        | Ok r =>
+          ld_read_allocs false (ReadOnly.q_maxh o) (ReadOnly.data_window r) ++
+          match ReadOnly.reader_roots hdrdec (ReadOnly.q_maxh o) r with
+          | Err _ => []
+          | Ok _ => embedded_or_allocs false o r
+          end
+        end
+      else []
+    end.
+
+  (* store.FindCid: per candidate offset a section buffer (ReadNode) or a CID digest buffer *)
+  Fixpoint find_cid_allocs (view : bytes) (offs : list N) (key : bytes) (kp : cidp)
+           (whole zeof : bool) (maxs : N) (readbytes : bool) : list N :=
+    match offs with
+    | [] => []
+    | off :: more =>
+      let s := drop off view in
+      if readbytes then
+        ld_read_allocs zeof maxs s ++
+        match read_node zeof maxs s with
+        | Err _ => []
+        | Ok (c, p, _, _) =>
+          if key_matches whole key kp c p then []
+          else find_cid_allocs view more key kp whole zeof maxs readbytes
+        end
+      else
+        match raw_uv s with
+        | Err _ => []
+        | Ok (slen, r1, _) =>
+          if maxs <? slen then [] else
+          cfr_allocs r1 ++
+          match cid_from_reader r1 with
+          | CfrOk _ c p _ =>
+            if key_matches whole key kp c p then []
+            else find_cid_allocs view more key kp whole zeof maxs readbytes
+          | _ => []
+          end
+        end
+    end.
+  Definition ro_find_allocs (s : ReadOnly.rostate) (key : bytes) (kp : cidp) (readbytes : bool) : list N :=
+    let o := ReadOnly.s_opts s in
+    find_cid_allocs (ReadOnly.s_view s) (ReadOnly.ridx_getall (ReadOnly.s_idx s) kp) key kp
+                    (ReadOnly.q_whole o) (ReadOnly.q_zeof o) (ReadOnly.q_maxs o) readbytes.
+
+  (* AllKeysChan: the header again, then one CidFromReader per section *)
+  Fixpoint keys_scan_allocs (fuel : nat) (s : ReadOnly.rostate) (pos : N) : list N :=
+    match fuel with
+    | O => []
+    | S f =>
+      match read_uv (drop pos (ReadOnly.s_view s)) with
+      | VOk len r1 n1 =>
+        if len =? 0 then [] else
+        cfr_allocs r1 ++
+        match cid_from_reader r1 with
+        | CfrOk _ _ _ _ =>
+          let npos := pos + n1 + len in
+          if two63 <=? npos then [] else keys_scan_allocs f s npos
+        | _ => []
+        end
+      | _ => []
+      end
+    end.
+  Definition ro_keys_allocs (s : ReadOnly.rostate) : list N :=
+    ld_read_allocs false (ReadOnly.q_maxh (ReadOnly.s_opts s)) (ReadOnly.s_view s) ++
+    match read_header hdrdec (ReadOnly.q_maxh (ReadOnly.s_opts s)) (ReadOnly.s_view s) with
+    | Err _ => []
+    | Ok (roots, ver, _, _) =>
+      keys_scan_allocs (S (S (length (ReadOnly.s_view s)))) s (ld_size (blen (enc_header (Some roots) ver)))
+    end.
+End RO.
+
+(* ---- BlockReader with positions: Next / SkipNext (theories/BlockReaderPos.v) ------------------------------- *)
+From GoCar Require BlockReaderPos.
+Section Brp.
+  Variable hok : bytes -> bytes -> option bool.
+  Variable hdrdec : bytes -> option (list bytes * N).
+
+  (* NewBlockReader: the header buffer(s) *)
+  Definition brp_open_allocs (o : ropts) (seek : bool) (file : bytes) : list N :=
+    ld_read_allocs false (o_maxh o) file ++
+    match read_header hdrdec (o_maxh o) file with
+    | Err _ => []
+    | Ok (_, v, rest, used) =>
+      if v =? 2 then
+        match read_v2hdr rest with
+        | Err _ => []
+        | Ok (h, rest2) =>
+          let skip := h_doff h - 51 in
+          if negb seek && (blen rest2 <? skip) then []
+          else
+            ld_read_allocs false (o_maxh o)
+              (take (h_dsize h) (drop (used + 40 + skip) file))
+        end
+      else []
+    end.
+  (* Next: the section buffer; SkipNext: the digest buffer of CidFromReader(io.LimitReader(r, l)) *)
+  Definition brp_next_allocs (o : ropts) (st : BlockReaderPos.brp) : list N :=
+    ld_read_allocs (o_zeof o) (o_maxs o) (BlockReaderPos.vis st).
+  Definition brp_skip_allocs (o : ropts) (st : BlockReaderPos.brp) : list N :=
+    match ld_read_size (o_zeof o) (o_maxs o) (BlockReaderPos.vis st) with
+    | Ok (l, rest, _) => if l =? 0 then [] else cfr_allocs (take l rest)
+    | Err _ => []
+    end.
+  Fixpoint brp_walk_allocs (o : ropts) (w : list bool) (st : BlockReaderPos.brp) : list N :=
+    match w with
+    | [] => []
+    | true :: w' =>
+      brp_next_allocs o st ++
+      match BlockReaderPos.brp_next hok o st with
+      | Ok (_, st') => brp_walk_allocs o w' st'
+      | Err _ => []
+      end
+    | false :: w' =>
+      brp_skip_allocs o st ++
+      match BlockReaderPos.brp_skip o st with
+      | Ok (_, st') => brp_walk_allocs o w' st'
+      | Err _ => []
+      end
+    end.
+  Definition brp_run_allocs (o : ropts) (seek : bool) (file : bytes) (w : list bool) : list N :=
+    brp_open_allocs o seek file ++
+    match BlockReaderPos.brp_open hdrdec o seek file with
+    | Ok (_, _, st0) => brp_walk_allocs o w st0
+    | Err _ => []
+    end.
+End Brp.
+
 (* ---- the measured bound (layer B, evaluated on the implementation's TotalAlloc delta) --------- *)
 (* requested sizes are what the theorems bound; the Go allocator, append's growth policy, the
    string copy of every CID, the hashers and the CBOR decoder sit between a request and the bytes
